@@ -36,6 +36,8 @@ struct OpenHandle {
 }
 
 pub struct Inner {
+    /// second names of files: alias -> the name the content lives under
+    aliases: HashMap<String, String>,
     sc: Scenario,
     files: BTreeMap<String, Node>,
     handles: HashMap<Handle, OpenHandle>,
@@ -159,9 +161,10 @@ fn chunk_limit(policy: Option<&ChunkPolicy>, pos: u64, nth: u32) -> u64 {
 
 impl SimWorld {
     pub fn new(sc: &Scenario, report_fd: i32) -> SimWorld {
+        let aliases: HashMap<String, String> = sc.hardlinks.iter().cloned().collect();
         let mut files = BTreeMap::new();
         for f in &sc.files {
-            if f.exists {
+            if f.exists && !aliases.contains_key(&f.path) {
                 files.insert(
                     f.path.clone(),
                     Node {
@@ -195,6 +198,7 @@ impl SimWorld {
         allowed_paths.extend(sc.argv.iter().cloned());
         let workers = sc.workers.max(1);
         let inner = Inner {
+            aliases,
             sc: sc.clone(),
             files,
             handles: HashMap::new(),
@@ -606,7 +610,9 @@ impl SimWorld {
         });
         // (a path named several times is accessed several times; a failure of one access says
         // nothing about the others)
-        let named = g.sc.argv.iter().filter(|a| a.as_str() == path).count();
+        // (the same holds for a file reachable under a second, hard-linked name)
+        let named = g.sc.argv.iter().filter(|a| a.as_str() == path).count()
+            + 2 * g.sc.hardlinks.iter().filter(|(a, t)| a == path || t == path).count();
         if let Some((_, at)) = g.read_failed.iter().find(|(p, _)| p == path).filter(|_| named <= 1) {
             let at = *at;
             Self::violate(
@@ -658,7 +664,8 @@ impl SimWorld {
         }
         for p in paths {
             let init = g.sc.files.iter().find(|f| f.path == p && f.exists);
-            match g.files.get(&p) {
+            let node_key = g.aliases.get(&p).cloned().unwrap_or_else(|| p.clone());
+            match g.files.get(&node_key) {
                 None => files.push(FinalFile {
                     path: p,
                     exists: false,
@@ -809,6 +816,7 @@ impl World for WorldRef {
             if (flags.truncate || flags.create || flags.create_new) && !wants_write {
                 return Err(libc::EINVAL);
             }
+            let p = g.aliases.get(&p).cloned().unwrap_or_else(|| p.clone());
             match g.files.get(&p) {
                 None => {
                     if flags.create || flags.create_new {
